@@ -1,0 +1,43 @@
+//go:build verif
+// +build verif
+
+// Machine-checked contracts for this package (checked by /verif/govc).
+// Comment-only: no executable code, so the compiled package is identical with
+// and without the `verif` build tag.
+
+package keeper
+
+//@ import types "github.com/ovrclk/akash/x/escrow/types"
+
+// ---- spec functions -------------------------------------------------------
+
+// sum of the block rates of the first k payments
+//@ spec sumRate(ps: []types.Payment, k: int): int = ite(k <= 0, 0, sumRate(ps, k-1) + ps[k-1].Rate.Amount)
+
+// sum of the weighted shares  floor(rem*rate_j/R)  of the first k payments
+//@ spec sumShare(ps: []types.Payment, rem: int, R: int, k: int): int = ite(k <= 0, 0, sumShare(ps, rem, R, k-1) + (rem * ps[k-1].Rate.Amount) / R)
+
+// ---- C02: settlement arithmetic -------------------------------------------
+
+//@ func accountSettleFullblocks
+//@   requires heightDelta > 0 && account.Balance.Amount >= 0 && blockRate.Amount > 0
+//@   requires blockRate.Amount == sumRate(payments, len(payments))
+//@   requires forall i: int :: 0 <= i && i < len(payments) ==> payments[i].Rate.Amount >= 0 && payments[i].Balance.Amount >= 0
+//@   modifies payments[*].Balance
+//@   ensures [share] forall i: int :: 0 <= i && i < len(payments) ==>
+//@              payments[i] == upd(old(payments[i]), Balance.Amount,
+//@                 old(payments[i].Balance.Amount) + old(payments[i].Rate.Amount) * min(account.Balance.Amount / blockRate.Amount, heightDelta))
+//@   ensures [acct] result0 == upd(upd(account,
+//@                 Balance.Amount, account.Balance.Amount - blockRate.Amount * min(account.Balance.Amount / blockRate.Amount, heightDelta)),
+//@                 Transferred.Amount, account.Transferred.Amount + blockRate.Amount * min(account.Balance.Amount / blockRate.Amount, heightDelta))
+//@   ensures [nonneg] result0.Balance.Amount >= 0
+//@   ensures [od] result2 <==> account.Balance.Amount / blockRate.Amount < heightDelta
+//@   ensures [rem] result3.Denom == account.Balance.Denom && result3.Amount == ite(result2, result0.Balance.Amount, 0)
+//@   ensures [remlt] result2 ==> result3.Amount < blockRate.Amount
+//@   ensures [ident] result1 == payments
+//@   loop 1 invariant 0 <= iter && iter <= len(payments)
+//@   loop 1 invariant forall j: int :: 0 <= j && j < iter ==>
+//@              payments[j] == upd(old(payments[j]), Balance.Amount, old(payments[j].Balance.Amount) + old(payments[j].Rate.Amount) * numFullBlocks)
+//@   loop 1 invariant forall j: int :: iter <= j && j < len(payments) ==> payments[j] == old(payments[j])
+
+//@ property C02 := accountSettleFullblocks#*
